@@ -28,6 +28,14 @@ pub open spec fn has_ident(e: Expression) -> bool
 
 pub open spec fn lvl(e: Expression) -> nat { if has_ident(e) { 1 } else { 0 } }
 
+// operands of a comparison: literals, fields, casts (and the all()/of()-wrapped field parse_mapping can leave there)
+pub open spec fn is_leaf(e: Expression) -> bool {
+    e is Boolean || e is Cast || e is Field || e is Float || e is Integer || e is Null
+}
+pub open spec fn is_term(e: Expression) -> bool {
+    is_leaf(e) || (e is Match && is_leaf(*e->Match_1))
+}
+
 // Well-formedness: what loading must establish so that evaluation cannot hit a panic site (C03).
 pub open spec fn wf(e: Expression, ids: Ids) -> bool
     decreases e,
@@ -35,7 +43,8 @@ pub open spec fn wf(e: Expression, ids: Ids) -> bool
     match e {
         Expression::BooleanGroup(op, g) => (op == BoolSym::And || op == BoolSym::Or)
             && forall|i: int| 0 <= i < g.len() ==> solvable(#[trigger] g[i]) && wf(g[i], ids),
-        Expression::BooleanExpression(l, op, r) => is_cmp(op) || (solvable(*l) && solvable(*r) && wf(*l, ids) && wf(*r, ids)),
+        Expression::BooleanExpression(l, op, r) =>
+            if is_cmp(op) { is_term(*l) && is_term(*r) } else { solvable(*l) && solvable(*r) && wf(*l, ids) && wf(*r, ids) },
         Expression::Identifier(i) => ids.contains_key(i),
         Expression::Match(_, x) => solvable(*x) && wf(*x, ids),
         Expression::Negate(x) => solvable(*x) && wf(*x, ids),
@@ -43,7 +52,7 @@ pub open spec fn wf(e: Expression, ids: Ids) -> bool
         Expression::Search(kind, _, _) => search_wf(kind),
         Expression::Matrix(cols, rows) => forall|j: int, i: int| 0 <= j < rows.len() && 0 <= i < rows[j].len() ==>
             rows[j].len() == cols.len()
-            && ((#[trigger] rows[j][i]) is Some ==> solvable(rows[j][i]->Some_0) && wf(rows[j][i]->Some_0, ids)),
+            && ((#[trigger] rows[j][i]) is Some ==> solvable(rows[j][i]->Some_0) && wf(rows[j][i]->Some_0, ids) && !has_ident(rows[j][i]->Some_0)),
         _ => true,
     }
 }
@@ -408,8 +417,15 @@ proof fn sem_nested_array_decreases(x: Expression, ids: Ids, a: ArrM) {
 }
 
 // a nested mapping over an array of objects: "some element satisfies it" (C10)
-pub open spec fn sem_nested_array(x: Expression, ids: Ids, a: ArrM) -> SolverResult
+// results of a block on each object element of an array
+pub open spec fn obj_results(x: Expression, ids: Ids, objs: Seq<ObjM>) -> Seq<SolverResult>
     decreases lvl(x), x, 2int,
+{
+    Seq::new(objs.len(), |k: int| sem3(x, ids, DocM::Obj(objs[k])))
+}
+
+pub open spec fn sem_nested_array(x: Expression, ids: Ids, a: ArrM) -> SolverResult
+    decreases lvl(x), x, 3int,
     via sem_nested_array_decreases
 {
     let objs = obj_elems(a);
@@ -419,8 +435,8 @@ pub open spec fn sem_nested_array(x: Expression, ids: Ids, a: ArrM) -> SolverRes
             Expression::BooleanGroup(BoolSym::Or, g) => and3(Seq::new(g.len() as nat, |j: int|
                 or3(Seq::new(objs.len(), |k: int| if 0 <= j < g.len() { sem3(g[j], ids, DocM::Obj(objs[k])) } else { SolverResult::Missing })))),
             Expression::Matrix(cols, rows) => sem_nested_array_matrix(cols, rows, ids, a),
-            _ => b3(some_true(Seq::new(objs.len(), |k: int| sem3(x, ids, DocM::Obj(objs[k]))))),
+            _ => b3(some_true(obj_results(x, ids, objs))),
         },
-        _ => b3(some_true(Seq::new(objs.len(), |k: int| sem3(x, ids, DocM::Obj(objs[k]))))),
+        _ => b3(some_true(obj_results(x, ids, objs))),
     }
 }
